@@ -154,6 +154,23 @@ def check(case, rec):
     gl = np.asarray(call("cdist", m.calc_cdist_matrix, dfL, dfS)).astype(float)
     if not np.array_equal(gl, want):
         raise Violation("tcr-index-dependence", f"{name}: relabelling the index changes the result")
+    # the caller changes V alleles in place (same table object, same shape) and asks the same metric object again
+    if len(R) >= 2 and only == ("A", "B"):
+        R2 = [dict(r) for r in R]
+        R2[0]["va"], R2[1]["va"] = R[1]["va"], R[0]["va"]
+        R2[0]["vb"], R2[-1]["vb"] = R[-1]["vb"], R[0]["vb"]
+        new = frame(R2, case["index"], case.get("extra", True), only)
+        call("cdist", m.calc_cdist_matrix, dfR, dfS)          # the call immediately before the edit sees the old alleles
+        for col in ("TRAV", "TRBV"):
+            dfR[col] = new[col].to_numpy()
+        g2 = np.asarray(call("cdist", m.calc_cdist_matrix, dfR, dfS)).astype(float)
+        want2 = np.array([[oracle(name, w, r, s_) for s_ in S] for r in R2], dtype=float)
+        if not np.array_equal(g2, want2):
+            raise Violation("tcr-stale-after-inplace-edit", f"{name}: after the V genes of the anchor table were changed in place the metric still uses the old loops")
+        new0 = frame(R, case["index"], case.get("extra", True), only)
+        for col in ("TRAV", "TRBV"):
+            dfR[col] = new0[col].to_numpy()
+        bR = dfR.copy(deep=True)
     # additivity
     if name in ("Cdr3", "Cdr") and only == ("A", "B"):
         an, bn = ("AlphaCdr3", "BetaCdr3") if name == "Cdr3" else ("AlphaCdr", "BetaCdr")
